@@ -65,6 +65,7 @@ InitH == [ called   |-> {},                       \* ops whose call was invoked
            pfin     |-> [p \in Pipes |-> 0],
            pout     |-> [p \in Pipes |-> 0],      \* outputs received by the consumer
            pflags   |-> [p \in Pipes |-> {}],     \* "in_closed", "in_end", "in_dropped", "closure_dropped", "stream_dropped", "out_end", "late_event"
+           pneed    |-> [op \in Ops |-> [p \in Pipes |-> 0]], \* per call: items of each pipe_in on its object that had been handed over when it was made
            viol     |-> {} ]
 
 Viol(h, cond, tag) == IF cond THEN [h EXCEPT !.viol = @ \cup {tag}] ELSE h
@@ -83,6 +84,12 @@ Unfinished(h) == {O(a) : a \in {x \in h.called : IsClosureOp(x) /\ ~Finished(h, 
 \* harness's reference is then not the drop of the last owner; that the value is freed in the end is checked at quiescence)
 HeldByPipe(h, o) == \E op \in Ops : K(op) \in {"pipe", "pipe_in"} /\ O(op) = o /\ op \in h.called
 
+PipeOp(p) == CHOOSE op \in Ops : K(op) \in {"pipe", "pipe_in"} /\ OpTab[op].p = p
+PKind(p) == K(PipeOp(p))
+PObj(p)  == O(PipeOp(p))
+\* items of pipe_in p whose send call has returned
+SentAndReturned(h, p) == Cardinality({s \in Ops : K(s) = "send" /\ OpTab[s].p = p /\ h.rets[s] = 0})
+
 (***************************************************************************)
 (* call / ret of an API call by thread t                                   *)
 (***************************************************************************)
@@ -91,7 +98,8 @@ ObsCall(h, t, op) ==
                       !.before[op] = IF IsOrdered(op)
                                       THEN {a \in Ops : a # op /\ IsOrdered(a) /\ K(a) # "drop_obj" /\ O(a) = O(op) /\ Accepted(h, a)}
                                       ELSE {},
-                      !.loud = IF IsOrdered(op) /\ K(op) # "drop_obj" /\ O(op) \in h.pdone THEN @ \cup {op} ELSE @]
+                      !.loud = IF IsOrdered(op) /\ K(op) # "drop_obj" /\ O(op) \in h.pdone THEN @ \cup {op} ELSE @,
+                      !.pneed[op] = [p \in Pipes |-> IF IsClosureOp(op) /\ PKind(p) = "pipe_in" /\ PObj(p) = O(op) THEN SentAndReturned(h, p) ELSE 0]]
       h2 == SetStack(h1, t, Append(StackOf(h, t), op))
       h3 == IF K(op) \in {"await", "poll", "wait_sync"} THEN [h2 EXCEPT !.polled = @ \cup {OpTab[op].f}]
             ELSE IF K(op) \in {"fdesync", "fsync", "after", "suspend"} /\ OpTab[op].then \in {"await", "sync"} THEN [h2 EXCEPT !.polled = @ \cup {op}]
@@ -141,7 +149,9 @@ ObsStart(h, t, op) ==
       \* C13: nothing scheduled after the suspension starts while the queue is suspended
       h11 == Viol(h9, h.susp[o] # 0 /\ op \notin h.before[h.susp[o]], "C13:ran-while-suspended")
       h12 == Viol(h11, op \in h.loud, "C15:ran-on-panicked")
-  IN  h12
+      \* C11: an item handed to the input stream before this operation was scheduled is processed before it (the wake-up queues the poll at once)
+      h13 == Viol(h12, \E p \in Pipes : h.pproc[p] < h.pneed[op][p], "C11:overtaken")
+  IN  h13
 
 ObsEnd(h, t, op) ==
   LET o  == O(op)
@@ -202,9 +212,6 @@ ObsBlocked(h, t) ==
 (***************************************************************************)
 (* Pipes                                                                   *)
 (***************************************************************************)
-PipeOp(p) == CHOOSE op \in Ops : K(op) \in {"pipe", "pipe_in"} /\ OpTab[op].p = p
-PKind(p) == K(PipeOp(p))
-PObj(p)  == O(PipeOp(p))
 PTag(p, what) == IF PKind(p) = "pipe_in" THEN "C11:" \o what ELSE "C12:" \o what
 PseudoOp(p) == 1000 + p
 PFlag(h, p, f) == [h EXCEPT !.pflags[p] = @ \cup {f}]
